@@ -19,7 +19,7 @@
     The code as it is: [region_abc/acd/adb] drop the "inside" flag of [origin_to_triangle]
     ([:2]); line 463 tests the truthiness of a float; lines 493-496 have identical arms. *)
 From Coq Require Import List Bool QArith ZArith.
-From D3 Require Import Base.Ops Base.Vec Model.DistPrim.
+From D3 Require Import Base.Ops Base.Vec Model.DistPrim Model.Nesterov.
 Import ListNotations.
 
 Section NesterovLoop.
@@ -195,7 +195,7 @@ Section NesterovLoop.
     else ray s.
 
   Inductive pass_result :=
-  | PDone (inside : bool) (distance : F)
+  | PDone (e : @inner_exit F)          (* the loop is left; (inside, distance) = Nesterov.finish tolerance inflation e *)
   | PErr
   | PNext (s : nstate).
 
@@ -207,7 +207,7 @@ Section NesterovLoop.
     let w := vsub s0 s1 in
     let sx := simplex s ++ [w] in
     let omega := dot rd w / norm rd in
-    if upper_bound <? omega then PDone false (omega - inflation)
+    if upper_bound <? omega then PDone (EOmega omega)
     else
       let gap_exit := acc s && ((two * dot (ray s) (vsub (ray s) w)) - tolerance <=? zero) in
       if gap_exit then PNext (NS (simplex s) (ray s) (ray_len s) rd w (alpha s) (it s) false)   (* continue *)
@@ -217,7 +217,7 @@ Section NesterovLoop.
         let cv := (diff - tolerance * ray_len s) <=? zero in
         if (0 <? it s)%nat && cv then
           if acc s then PNext (NS (simplex s) (ray s) (ray_len s) rd w alpha' (it s) false)     (* continue *)
-          else let distance := ray_len s - inflation in PDone (distance <? tolerance) distance
+          else PDone (EConverged (ray_len s))
         else
           let pr : option proj :=
             match sx with
@@ -231,7 +231,7 @@ Section NesterovLoop.
           | None => PErr
           | Some (rows, ray', inside) =>
             let ray_len' := if inside then ray_len s else norm ray' in
-            if inside || (ray_len' =? zero) then PDone true (- inflation - one)
+            if inside || (ray_len' =? zero) then PDone EInside
             else PNext (NS rows ray' ray_len' rd w alpha' (S (it s)) (acc s))
           end.
 
@@ -240,26 +240,25 @@ Section NesterovLoop.
   (** replay: before each support call the code tests [i < max] and [ray_len < tolerance] *)
   Fixpoint replay (fuel : nat) (normalize : bool) (max_interations : nat) (tolerance upper_bound inflation : F)
            (trace : list (V3 F * V3 F)) (s : nstate) (dirs : list (V3 F)) : list (V3 F) * run_result :=
+    let ans (e : inner_exit) (i : nat) := let '(inside, distance) := finish tolerance inflation e in NAns inside distance i in
     match fuel with
     | 0%nat => (rev dirs, NErr)
     | S f =>
       if (it s <? max_interations)%nat then
-        if ray_len s <? tolerance then (rev dirs, NAns true (- inflation) (it s))
+        if ray_len s <? tolerance then (rev dirs, ans ERayShort (it s))
         else
           match trace with
           | [] => (rev dirs, NTrace)
           | (s0, s1) :: rest =>
             let dirs' := vneg (next_dir normalize s) :: dirs in        (* support_function(-ray_dir, ...) *)
             match pass normalize tolerance upper_bound inflation s s0 s1 with
-            | PDone inside distance => (rev dirs', NAns inside distance (it s))
+            | PDone e => (rev dirs', ans e (it s))
             | PErr => (rev dirs', NErr)
             | PNext s' => replay f normalize max_interations tolerance upper_bound inflation rest s' dirs'
             end
           end
       else
-        (* the cap exit added by commit b028d6b *)
-        let distance := ray_len s - inflation in
-        (rev dirs, NAns (distance <? tolerance) distance (it s))
+        (rev dirs, ans (EMaxIter (ray_len s)) (it s))      (* the cap exit added by commit b028d6b *)
     end.
 
   Definition nesterov_replay (use_acc normalize : bool) (max_interations : nat)
@@ -272,21 +271,21 @@ Section NesterovLoop.
       support functions below) *)
   Fixpoint run_with (fuel : nat) (normalize : bool) (max_interations : nat) (tolerance upper_bound inflation : F)
            (sup : V3 F -> V3 F * V3 F) (s : nstate) (evals : nat) : run_result * nat :=
+    let ans (e : inner_exit) (i : nat) := let '(inside, distance) := finish tolerance inflation e in NAns inside distance i in
     match fuel with
     | 0%nat => (NErr, evals)
     | S f =>
       if (it s <? max_interations)%nat then
-        if ray_len s <? tolerance then (NAns true (- inflation) (it s), evals)
+        if ray_len s <? tolerance then (ans ERayShort (it s), evals)
         else
           let '(s0, s1) := sup (vneg (next_dir normalize s)) in
           match pass normalize tolerance upper_bound inflation s s0 s1 with
-          | PDone inside distance => (NAns inside distance (it s), S evals)
+          | PDone e => (ans e (it s), S evals)
           | PErr => (NErr, S evals)
           | PNext s' => run_with f normalize max_interations tolerance upper_bound inflation sup s' (S evals)
           end
       else
-        let distance := ray_len s - inflation in
-        (NAns (distance <? tolerance) distance (it s), evals)
+        (ans (EMaxIter (ray_len s)) (it s), evals)
     end.
 
   (** _gjk_nesterov_accelerated_primitives.py 543-640: type codes 0 sphere, 1 capsule, 2 box,
